@@ -194,6 +194,7 @@ def _if_to_call(node: ast.If, module: str, func_loc: str):
         ast.Call: The If statement reformatted using a call to {module}.where().
 
     """
+    _harmonise_assignments(node)
     args = [node.test, node.body[0].value]
 
     if len(node.orelse) > 1 or len(node.body) > 1:
@@ -208,6 +209,13 @@ def _if_to_call(node: ast.If, module: str, func_loc: str):
         else:
             name = ast.Name(id=node.body[0].target.id, ctx=ast.Load())
         args.append(name)
+    elif isinstance(
+        node.orelse[0], ast.Return | ast.Assign | ast.AugAssign
+    ) and _statement_signature(node.body[0]) != _statement_signature(node.orelse[0]):
+        # The bodies are merged into one statement, which is only correct if both
+        # return or both assign to the same variable.
+        msg = _different_operations_error_message(node, func_loc=func_loc)
+        raise TranslateToVectorizableError(msg)
     elif isinstance(node.orelse[0], ast.Return):
         args.append(node.orelse[0].value)
     elif isinstance(node.orelse[0], ast.If):
@@ -231,6 +239,59 @@ def _if_to_call(node: ast.If, module: str, func_loc: str):
         keywords=[],
     )
     return call
+
+
+def _statement_signature(node: ast.stmt):
+    """Describe what a statement in an if / else body does, apart from its value."""
+    if isinstance(node, ast.Return):
+        out = ("return",)
+    elif isinstance(node, ast.Assign):
+        out = ("assign", *[ast.dump(target) for target in node.targets])
+    elif isinstance(node, ast.AugAssign):
+        out = ("augassign", type(node.op).__name__, ast.dump(node.target))
+    else:
+        out = (type(node).__name__,)
+    return out
+
+
+def _assigned_name(node: ast.stmt):
+    """Name of the variable a statement assigns to or updates (None if not a name)."""
+    if isinstance(node, ast.Assign) and len(node.targets) == 1:
+        target = node.targets[0]
+    elif isinstance(node, ast.AugAssign):
+        target = node.target
+    else:
+        target = None
+    return target.id if isinstance(target, ast.Name) else None
+
+
+def _harmonise_assignments(node: ast.If):
+    """Make the if and the else body of `node` assign in the same way.
+
+    If both bodies set the same variable, but not with the same operator (e.g.
+    `out += 1` in one and `out = 0.0` in the other), the bodies cannot be merged into
+    one statement as they are. Rewrite augmented assignments `x += v` as `x = x + v`.
+
+    """
+    if len(node.body) != 1 or len(node.orelse) != 1:
+        return
+    name = _assigned_name(node.body[0])
+    if (
+        name is None
+        or name != _assigned_name(node.orelse[0])
+        or _statement_signature(node.body[0]) == _statement_signature(node.orelse[0])
+    ):
+        return
+    for branch in (node.body, node.orelse):
+        if isinstance(branch[0], ast.AugAssign):
+            branch[0] = ast.Assign(
+                targets=[ast.Name(id=name, ctx=ast.Store())],
+                value=ast.BinOp(
+                    left=ast.Name(id=name, ctx=ast.Load()),
+                    op=branch[0].op,
+                    right=branch[0].value,
+                ),
+            )
 
 
 def _ifexp_to_call(node: ast.IfExp, module: str):
@@ -388,6 +449,20 @@ def _too_many_operations_error_message(node: ast.If, func_loc: str):
         "\n\n"
         "An if statement is performing multiple operations, which is forbidden.\n"
         "Please only perform one operation in the body of an if-elif-else statement."
+        f"\n\nFunction: {func_loc}\n\n"
+        "Problematic source code (after transformations that were possible, if any):"
+        f"\n\n{source}\n"
+    )
+    return msg
+
+
+def _different_operations_error_message(node: ast.If, func_loc: str):
+    source = _node_to_formatted_source(node)
+    msg = (
+        "\n\n"
+        "The bodies of an if-else statement perform different operations, which is "
+        "forbidden.\nPlease either return in all bodies of an if-elif-else statement "
+        "or assign to the same variable in all of them."
         f"\n\nFunction: {func_loc}\n\n"
         "Problematic source code (after transformations that were possible, if any):"
         f"\n\n{source}\n"
